@@ -6,7 +6,7 @@
    MTU-bounded loop of Cluster.v.  All statements are for ALL copies, watermarks (including
    watermark above max version), keys, statuses and truncation points. *)
 From ChitchatModel Require Import Base SMap Ids Bytes Params NodeState Stream DeltaWire Message Cluster
-  FD Chitchat Monitors NodeState_lemmas Agreement Inv DeltaRefine Compute_lemmas Prefix_lemmas Monitors_sound MonitorsP.
+  FD Chitchat Monitors NodeState_lemmas Agreement Inv DeltaRefine Compute_lemmas Prefix_lemmas Monitors_sound MonitorsD MonitorsP GuardsGen GuardTie.
 
 (* never refused as inapplicable or from the future; reset exactly when both the receiver's max
    version and watermark lie below the sender's watermark, and then from version 0; the only
@@ -81,6 +81,15 @@ Theorem C14_computed_deltas_pass_the_monitor : forall cs dg sched mtu x,
 Proof. exact computed_delta_passes_c14. Qed.
 Print Assumptions C14_computed_deltas_pass_the_monitor.
 
+(* the agreement itself as a monitor on the implementation's replies (c14_agree_ok): a receiver
+   holding the copy its digest advertised takes on each node delta the decision the sender took —
+   reset iff the sender decided to reset (what the header's watermark must make it do) — and it
+   refuses only an empty node delta.  Satisfied by every delta the model computes. *)
+Theorem C14_computed_deltas_agree_with_the_receiver : forall cs dg sched mtu x,
+  cluster_inv cs -> delta_shape cs dg sched mtu x -> c14_agree_ok dg (cs_nodes cs) x = true.
+Proof. exact computed_delta_passes_agreement. Qed.
+Print Assumptions C14_computed_deltas_agree_with_the_receiver.
+
 (* "Whenever the sender's copy is ahead the delta is non-empty (space permitting)", at the level of a
    whole computed delta and for EVERY shuffle outcome: if some member the sender does not
    quarantine is ahead of the digest, the budget is a legal one, and every such member's header
@@ -98,3 +107,37 @@ Example C14_offer_monitor_rejects_an_empty_delta :
   let c := fst (set new_copy [x6b] [x31]) in
   c14_offer_ok [(mkId [x41] 0 (V4 1 1), c)] [] [] 1000 (mkDelta [] 0) = false.
 Proof. vm_compute. reflexivity. Qed.
+
+(* ---- the tie of the decision guards to the sources (GuardTie.v) ----
+   tools/guards.py re-translates, on every run, the Rust expression of each guard below into the
+   function rs_<guard> (GuardsGen.v).  The model function is the decision tree over the model's
+   guards g_<guard> (by computation), and each g_<guard> cuts its operands' space along the same
+   boundary as rs_<guard> (equal, or equal to its negation — a rewrite that tests the opposite
+   condition and swaps the branches is harmless; see GuardTie.v).  A source change that moves a
+   boundary (`<` for `<=`, another operand, a dropped conjunct) breaks this theorem on the next
+   run. *)
+Theorem C14_decision_guards_are_the_source_guards :
+  (forall c d, check_delta_status c d =
+     if g_cds_future (d_from d) (c_max c) then Reject
+     else if negb (g_cds_compat (d_gc d) (c_gc c) (c_max c))
+          then (if g_cds_from_nonzero (d_from d) then Reject else ApplyAfterReset)
+          else if g_cds_newer (c_max c) (d_max d) then Apply else Reject) /\
+  ((forall dgc cgc cmax dmax dfrom, rs_cds_future dgc cgc cmax dmax dfrom = g_cds_future dfrom cmax) \/
+   (forall dgc cgc cmax dmax dfrom, rs_cds_future dgc cgc cmax dmax dfrom = negb (g_cds_future dfrom cmax))) /\
+  ((forall dgc cgc cmax dmax dfrom, rs_cds_compat dgc cgc cmax dmax dfrom = g_cds_compat dgc cgc cmax) \/
+   (forall dgc cgc cmax dmax dfrom, rs_cds_compat dgc cgc cmax dmax dfrom = negb (g_cds_compat dgc cgc cmax))) /\
+  ((forall dgc cgc cmax dmax dfrom, rs_cds_from_nonzero dgc cgc cmax dmax dfrom = g_cds_from_nonzero dfrom) \/
+   (forall dgc cgc cmax dmax dfrom, rs_cds_from_nonzero dgc cgc cmax dmax dfrom = negb (g_cds_from_nonzero dfrom))) /\
+  ((forall dgc cgc cmax dmax dfrom, rs_cds_newer dgc cgc cmax dmax dfrom = g_cds_newer cmax dmax) \/
+   (forall dgc cgc cmax dmax dfrom, rs_cds_newer dgc cgc cmax dmax dfrom = negb (g_cds_newer cmax dmax))) /\
+  (* the sender: the version a node delta starts from *)
+  (forall dg sched i c n, stale_candidate dg sched (i, c) = Some n ->
+     let '(dgc, dmax) := match dg_get i dg with Some g => (g_gc g, g_max g) | None => (0, 0)%N end in
+     sn_from n = if g_should_reset dgc dmax (c_gc c) then 0%N else dmax) /\
+  ((forall dgc dmax sgc smax, rs_should_reset dgc dmax sgc smax = g_should_reset dgc dmax sgc) \/
+   (forall dgc dmax sgc smax, rs_should_reset dgc dmax sgc smax = negb (g_should_reset dgc dmax sgc))).
+Proof.
+  exact (conj check_delta_status_is_the_tree (conj tie_cds_future (conj tie_cds_compat (conj tie_cds_from_nonzero
+          (conj tie_cds_newer (conj stale_candidate_uses_the_guard tie_should_reset)))))).
+Qed.
+Print Assumptions C14_decision_guards_are_the_source_guards.
